@@ -11,6 +11,7 @@ import (
 	"runtime/debug"
 	"strings"
 	"sync"
+	"time"
 
 	"github.com/itchio/headway/state"
 	"github.com/itchio/lake"
@@ -82,6 +83,12 @@ type DiffSeams struct {
 	// ReleaseFirstAtRead: the source read during which the first attempt was cancelled stays in
 	// flight until the retry's pool gets its n-th read (or until the retry is over)
 	ReleaseFirstAtRead int
+	// FailFirstOpenAt > 0 (free-running only): a first WritePatch on the same DiffContext, into
+	// the SAME destination writers, fails because its pool cannot open the n-th file; the garbage
+	// collector is then given the chance to run finalizers before the writers are emptied and the
+	// real WritePatch starts. LateBytes reports what arrived in the writers after the failed call
+	// had returned.
+	FailFirstOpenAt int
 }
 
 // DiffResult is what a diff run produced.
@@ -92,8 +99,9 @@ type DiffResult struct {
 	Panic         string
 	SourcePool    *Pool
 	SecondDiffers bool  // Twice: the second WritePatch wrote other patch bytes than the first
-	FirstErr      error // CancelFirstAtRead: what the cancelled attempt returned
+	FirstErr      error // CancelFirstAtRead / FailFirstOpenAt: what the first attempt returned
 	FirstRan      bool
+	LateBytes     int // FailFirstOpenAt: bytes that reached the destinations after the failed call returned
 }
 
 // Recover runs f and converts a panic into a string (value + stack).
@@ -205,6 +213,25 @@ func Diff(oldDir, newDir string, comp *pwr.CompressionSettings, seams DiffSeams)
 		if res.Panic != "" {
 			return res
 		}
+	}
+	if seams.FailFirstOpenAt > 0 {
+		sp0 := &Pool{Inner: fspool.New(sourceContainer, newDir), Name: "srcpool0", Yield: seams.Yield, FailOpen: seams.FailFirstOpenAt}
+		dctx.Pool = sp0
+		res.Panic = Recover(func() {
+			res.FirstErr = dctx.WritePatch(ctx, pw, sw)
+		})
+		res.FirstRan = true
+		dctx.Pool = sp
+		if res.Panic != "" {
+			return res
+		}
+		if res.FirstErr != nil {
+			before := len(pw.Bytes()) + len(sw.Bytes())
+			waitForFinalizers()
+			res.LateBytes = len(pw.Bytes()) + len(sw.Bytes()) - before
+		}
+		pw.Reset()
+		sw.Reset()
 	}
 	res.Panic = Recover(func() {
 		res.Err = dctx.WritePatch(ctx, pw, sw)
@@ -388,6 +415,9 @@ type OptimizeKnobs struct {
 	Compression *pwr.CompressionSettings
 	// WithStats hands the optimizer a bsdiff.DiffStats to fill in (optional in rediff.Params)
 	WithStats bool
+	// FailSourceOpenAt > 0 (free-running only): the n-th open of a new-build file fails; the
+	// result then says how many bytes reached the patch writer after Optimize had returned
+	FailSourceOpenAt int
 }
 
 func GenKnobs(rt *rapid.T) OptimizeKnobs {
@@ -411,7 +441,8 @@ type OptimizeResult struct {
 	Patch    []byte
 	Err      error
 	Panic    string
-	Mappings int
+	Mappings  int
+	LateBytes int
 	// Again runs Optimize once more on the same rediff context with the same pools (nil if the
 	// first run failed)
 	Again func() *OptimizeResult
@@ -443,13 +474,22 @@ func Optimize(patch []byte, oldDir, newDir string, k OptimizeKnobs, slice *Slice
 		res.Mappings = len(rc.GetDiffMappings())
 		out := &Writer{Name: "optpatch", Yield: yield}
 		tp, sp := fspool.New(rc.GetTargetContainer(), oldDir), fspool.New(rc.GetSourceContainer(), newDir)
+		var spUsed lake.Pool = sp
+		if k.FailSourceOpenAt > 0 {
+			spUsed = &Pool{Inner: sp, Name: "optsrc", FailOpen: k.FailSourceOpenAt}
+		}
 		err = rc.Optimize(rediff.OptimizeParams{
 			TargetPool:  tp,
-			SourcePool:  sp,
+			SourcePool:  spUsed,
 			PatchWriter: out,
 		})
 		if err != nil {
 			res.Err = fmt.Errorf("Optimize: %w", err)
+			if k.FailSourceOpenAt > 0 {
+				before := len(out.Bytes())
+				waitForFinalizers()
+				res.LateBytes = len(out.Bytes()) - before
+			}
 			return
 		}
 		res.Patch = out.Bytes()
@@ -535,4 +575,22 @@ func zipLike(c *tlc.Container, seed uint64) {
 		kept[i], kept[j] = kept[j], kept[i]
 	}
 	c.Dirs = kept
+}
+
+// waitForFinalizers lets the garbage collector run the finalizers that are due (they run on one
+// goroutine, in the order they were queued: a sentinel queued after a collection is done when
+// the others are). Real time is involved (at most 2 s), so this is for free-running code only.
+func waitForFinalizers() {
+	for round := 0; round < 2; round++ {
+		runtime.GC()
+		done := make(chan struct{})
+		sentinel := new([64]byte)
+		runtime.SetFinalizer(sentinel, func(*[64]byte) { close(done) })
+		sentinel = nil
+		runtime.GC()
+		select {
+		case <-done:
+		case <-time.After(2 * time.Second):
+		}
+	}
 }
